@@ -47,6 +47,12 @@ def blockfn(spec):
   return 2
 
 
+def callfree(spec):
+  # no call, no nested function, no block: the only user code it reaches is a property getter
+  v = P.now
+  return v
+
+
 def deep_fn(cb, k):
   return cb(k)
 
@@ -65,6 +71,25 @@ BLOCKS = None     # name -> ControlStatusCtx objects owned by the harness (per t
 
 %s
 node_l = lambda spec: H.lam_body(spec)
+
+
+import malt as _malt
+
+
+class Holder(object):
+  """do_not_convert used as a decorator in a class body; the methods are called as obj.method(...)."""
+
+  @_malt.experimental.do_not_convert
+  def m_a(self, spec):
+    return node_a(spec)
+
+  @_malt.experimental.do_not_convert
+  def m_b(self, spec):
+    return node_b(spec)
+
+  @_malt.experimental.do_not_convert
+  def m_c(self, spec):
+    return node_c(spec)
 '''
 
 NODE_SRC = '''\
@@ -184,7 +209,9 @@ def _gen_link(rng, prefix, budget, depth, max_depth, root, n_shared):
   if kind == 'convert' and not link.get('cctx') and rng.random() < 0.12:
     # a leaf: a converted function that holds a user block ending in a one-branch return
     link['blockfn'] = {'blk': rng.choice(STATUSES), 'early': rng.random() < 0.4}
-  if kind == 'convert' and not link.get('cctx') and not link.get('blockfn') and rng.random() < 0.2:
+  if kind == 'convert' and not link.get('cctx') and not link.get('blockfn') and rng.random() < 0.1:
+    link['callfree'] = True      # a leaf: a converted function without a single call in its body
+  if kind == 'convert' and not link.get('cctx') and not link.get('blockfn') and not link.get('callfree') and rng.random() < 0.2:
     # the wrapper object was created earlier, elsewhere (by the main thread,
     # inside a do_not_convert-like region), and is only *called* here
     link['premade'] = True
@@ -192,6 +219,8 @@ def _gen_link(rng, prefix, budget, depth, max_depth, root, n_shared):
     link['as_partial'] = True      # the wrapped callable is a functools.partial of the node function
   if kind == 'convert':
     link['ur'] = rng.random() < 0.65
+  if kind in ('plain', 'plain_try') and rng.random() < 0.3:
+    link['wrap'] = 'dnc'           # the callee the (possibly converted) parent calls is a do_not_convert wrapper
   if kind == 'with':
     link['status'] = rng.choice(STATUSES)
     if rng.random() < 0.2:
@@ -217,6 +246,8 @@ def _gen_link(rng, prefix, budget, depth, max_depth, root, n_shared):
     link['inner'] = rng.choice(['convert', 'convert_nour', 'to_graph'])
     link['rec'] = rng.random() < 0.7
     link['feats'] = rng.randrange(len(FEATSETS))
+  if kind == 'dnc' and not link.get('inner') and rng.random() < 0.3:
+    link['via_method'] = True      # do_not_convert as a decorator of a method, called as obj.method(...)
   if kind == 'dnc_gen':
     # a generator function under do_not_convert, stepped `steps` times and then
     # closed or exhausted; the spec's children run while it is suspended
@@ -435,6 +466,8 @@ class Harness(object):
     self.stats = {'nodes': 0, 'generated_nodes': 0, 'exc_crossings': 0, 'caught': 0,
                   'fallback_nodes': 0, 'to_graph_failed': 0, 'status_checks': 0,
                   'restore_checks': 0, 'max_region_depth': 0}
+    self.dnc_wrapped = {}
+    self.holder = mod.Holder()
     self.switch_in_region = False
     self.blocks = _Blocks(self)
     mod.P = _Probe(self)
@@ -592,6 +625,11 @@ class Harness(object):
       st.captured.pop()
 
   def pick(self, link):
+    if link.get('wrap') == 'dnc':
+      w = self.dnc_wrapped.get(link['fn'])
+      if w is None:
+        w = self.dnc_wrapped[link['fn']] = self.api.do_not_convert(self.nodes[link['fn']])
+      return w
     return self.nodes[link['fn']]
 
   def ours(self, e):
@@ -790,6 +828,8 @@ class Harness(object):
       import functools
       fn = functools.partial(functools.partial(fn))
     if kind in ('native', 'plain', 'plain_try'):
+      if link.get('wrap') == 'dnc' and not link.get('as_partial'):
+        fn = self.pick(link)
       return fn(spec)      # (plain kinds reach here only below a lambda node)
     if kind == 'convert':
       feats = _feats(malt, link['feats'])
@@ -801,6 +841,22 @@ class Harness(object):
                               user_requested=link['ur'])(self.mod.blockfn)(bspec)
         finally:
           st.blk = None
+      if link.get('callfree'):
+        pexp = st.pending[-1][1] if st.pending else None
+        st.noncall = None
+        w = malt.convert(recursive=link['rec'], optional_features=feats, user_requested=link['ur'])(self.mod.callfree)
+        w(spec)
+        nc, st.noncall = st.noncall, None
+        self.stats['callfree_probes'] = self.stats.get('callfree_probes', 0) + 1
+        if nc is not None and self.clean and link['feats'] < 100:
+          # (fault-free runs: nothing can legitimately stop the conversion the user asked for)
+          want = 'DISABLED' if pexp == 'DISABLED' else ('ENABLED' if link['ur'] else None)
+          if want is not None and _status_name(nc) != want:
+            self.viol('S3' if want == 'ENABLED' else 'S2',
+                      'call-free converted function %s (user_requested=%s, called under %s): a property getter '
+                      'run by its body sees %s, expected %s' % (spec['id'], link['ur'], pexp, _status_name(nc), want),
+                      sig='callfree-%s-for-%s' % (_status_name(nc), want))
+        return spec['id']
       if link.get('cctx'):
         ctx = ag_ctx.ControlStatusCtx(getattr(ag_ctx.Status, link['cctx']))
         st.pending[-1].append(ctx)
@@ -827,6 +883,9 @@ class Harness(object):
         except Exception:   # noqa: BLE001
           self.stats['to_graph_failed'] += 1
           return None
+      if link.get('via_method') and not inner and not link.get('as_partial') and link['fn'] in NODE_NAMES:
+        self.stats['dnc_method_calls'] = self.stats.get('dnc_method_calls', 0) + 1
+        return getattr(self.holder, 'm_' + link['fn'])(spec)
       return malt.experimental.do_not_convert(target)(spec)
     if kind == 'dnc_gen':
       return self._run_generator(st, link)
@@ -988,6 +1047,8 @@ def expected_status(link, pexp, generated, H):
   None = nothing promised (only restoration, S1, applies)."""
   kind = link['kind']
   inherit = 'DISABLED' if pexp == 'DISABLED' else None
+  if kind in ('plain', 'plain_try') and link.get('wrap') == 'dnc':
+    return 'DISABLED'
   if kind in ('plain', 'plain_try', 'native'):
     return inherit
   if kind == 'convert' and link.get('cctx'):
